@@ -94,6 +94,15 @@ def judge_object(acc, flavour, req, r, ln, setup):
         viol("phrase-in-object", "%s pass-phrase windows found in the data object" % r["ps"])
 
 
+def xneedle_line(p):
+    """HMAC replaces a key longer than its 64-byte block by the key's digest: for such a phrase the digest (and its
+    inner/outer pad and byte-swapped forms) IS the pass-phrase as the algorithm uses it"""
+    import hashlib
+    if p is None or len(p) <= 64:
+        return "xneedle -"
+    return "xneedle " + (hashlib.sha256(p).digest() + hashlib.sha1(p).digest()).hex()
+
+
 def do_object(args):
     """(1): asan flavour, shared objects, histories"""
     reqs, hseed = args[:2]
@@ -112,6 +121,8 @@ def do_object(args):
         if slot != 2:
             lines.append("fill %d %s %d" % (slot, rng.choice("rf"), rng.getrandbits(20)))
             meta.append(None)
+        lines.append(xneedle_line(p))
+        meta.append(None)
         lines.append(rt.crypt_line(e, slot, p, s, "=", rng.choice("ssi")))
         meta.append(req)
     rows = rt.run_resilient(w, setup, lines)
@@ -152,6 +163,8 @@ def do_stack(args):
             bs = rng.choice([64, 600, 4000, CD - 1])
             lines.append("raobj 2 %d %d" % (bs, bs))
             meta.append(None)
+        lines.append(xneedle_line(p))
+        meta.append(None)
         lines.append(rt.crypt_line(e, 2 if e == "crypt_ra" else 0, p, s, "=", "s"))
         meta.append(req)
         if e == "crypt" and kind == "ok" and rng.random() < 0.5:
@@ -159,6 +172,8 @@ def do_stack(args):
             m2 = rng.choice(["md5crypt", "sha256crypt", "descrypt", "bcrypt"])
             s2, _ = gen.gen_valid(rng, m2)
             if gen.cost_units(s2, 60) <= BUDGET:
+                lines.append("xneedle -")
+                meta.append(None)
                 lines.append(rt.crypt_line("crypt", 0, b"-", s2, "=", "o"))
                 meta.append(("alias", m2, None, s2))
     rows = rt.run_resilient(w, setup, lines)
